@@ -17,6 +17,8 @@ from analysis.ordering import always_err
 
 def run(ctx):
     F = ctx.F
+    from rules import deadrules as _dr
+    _dr.rule_parsed_fields_used(ctx, "R16.8", ("layout21raw::lef::",), 5)
     fl = get_flow(F)
     ctx.rule("R16.1", "LEF -> raw field correspondence: x<-x, y<-y (kept distinct), outline <- SIZE, name <- macro name, net <- pin name, shapes <- geometries, width <- WIDTH, layer <- layer name")
     ctx.rule("R16.2", "Decimal::mantissa() is only read from a value normalised to scale 0 (trunc / normalize / round), so the result does not depend on how many decimals were written")
